@@ -305,25 +305,66 @@ def run(ctx):
     # ---------------------------------------------------------------- 1d. display-name skipping
     r3 = rep.rule('C17.3-phrase-skipping', 'R-TABLE', 'token822_addrlist: after a route address the display-name phrase to its left is skipped as a whole: the skipped token kinds include atoms, quoted strings and comments')
     al = db.fn('token822.c', 'token822_addrlist')
-    # the skipping loop: the only while-loop whose condition tests t->type == COMMENT
-    best = None
-    for b in al.blocks.values():
-        c = b.cond
-        if c is None:
-            continue
-        s = c.strip()
-        if s.k == 'bin' and s.op == '==' and s.args[0].src().endswith('t->type') and s.args[1].const == tm.get('TOKEN822_ATOM') and b.succs:
-            body = b.succs[0]
-            ks = disjunct_consts(al, body, lambda v: v.src().endswith('t->type'))
-            if len(ks) >= 2:
-                best = ks
-    if best is None:
-        raise AnalysisBroken('token822_addrlist: phrase-skipping loop not found')
-    names = {v: k for k, v in tm.items()}
-    need = {tm['TOKEN822_ATOM'], tm['TOKEN822_QUOTE'], tm['TOKEN822_COMMENT']}
-    r3.check(need <= best, 'phrase=atoms,quoted-strings,comments', 'token822.c:token822_addrlist',
-             'the loop skips %s; missing %s: a comment inside a display name ("John Smith (home) <js@x>") would end the skip and the words of the name become extra recipients' %
-             (sorted(names.get(k, k) for k in best), sorted(names.get(k, k) for k in need - best)))
+
+    class AL(QHooks):
+        """token822_addrlist on a concrete token list; the caller's callback records the address it is shown"""
+        def __init__(self):
+            self.rows = []
+
+        def tracked_global(self, path):
+            return True
+
+        def precise_arith(self, path):
+            return True
+
+        def prim_token822_readyplus(self, E, x, args):
+            o = g1v(args[0])
+            if not (isinstance(o, tuple) and o[0] == '&'):
+                return [Outcome(ret=fs(1))]
+            return [Outcome(ret=fs(1), sets={o[1] + '.t': fs(('&', o[1] + '.t[0]'))})]
+
+        prim_token822_ready = prim_token822_readyplus
+
+        def on_call(self, E, x, args):
+            if x.callee is None:          # callback(taaddr)
+                o = g1v(args[0])
+                n = g1v(E.get(o[1] + '.len')) if isinstance(o, tuple) else None
+                ids = tuple(g1v(E.get('%s.t[%d].slen' % (o[1], k))) for k in range(n)) if isinstance(n, int) and 0 <= n < 32 else None
+                E.set('$cb', fs(tuple(g1v(E.get('$cb')) or ()) + (ids,)))
+                return [Outcome(ret=fs(1))]
+            return super().on_call(E, x, args)
+
+        def on_return(self, E, fn, val):
+            if fn.name == 'token822_addrlist':
+                self.rows.append((g1v(val), tuple(g1v(E.get('$cb')) or ()), E.trace.list()))
+
+    T_ = lambda k: tm['TOKEN822_' + k]
+    scen = [('"John Smith (home)" display name before a route address',
+             ['ATOM', 'COLON', 'ATOM', 'QUOTE', 'COMMENT', 'ATOM', 'LEFT', 'ATOM', 'AT', 'ATOM', 'RIGHT'], [{7, 8, 9}]),
+            ('a plain address, then a display name with a comment and a route address',
+             ['ATOM', 'COLON', 'ATOM', 'AT', 'ATOM', 'COMMA', 'ATOM', 'COMMENT', 'LEFT', 'ATOM', 'AT', 'ATOM', 'RIGHT'], [{2, 3, 4}, {9, 10, 11}]),
+            ('two plain addresses', ['ATOM', 'COLON', 'ATOM', 'AT', 'ATOM', 'COMMA', 'ATOM', 'AT', 'ATOM'], [{2, 3, 4}, {6, 7, 8}])]
+    bad3 = None
+    for what, kinds, want in scen:
+        H3 = AL()
+        e3 = Engine(db, prog, H3, max_states=60000)
+        fid = e3.frame_id(al)
+        st = {'%s::%s' % (fid, al.params[0]): fs(('&', 'TAOUT')), '%s::%s' % (fid, al.params[1]): fs(('&', 'TAADDR')), '%s::%s' % (fid, al.params[2]): fs(('&', 'TA')),
+              '%s::%s' % (fid, al.params[3]): fs(('fn', 'CB')), 'TA.t': fs(('&', 'TA.t[0]')), 'TA.len': fs(len(kinds)), 'TAOUT.len': fs(0), 'TAADDR.len': fs(0)}
+        for k, kd in enumerate(kinds):
+            st['TA.t[%d].type' % k] = fs(T_(kd))
+            st['TA.t[%d].slen' % k] = fs(k)          # the token's position doubles as its identity
+            st['TA.t[%d].s' % k] = fs(0)
+        e3.run(al, st)
+        rep.count_states(e3.states, e3.transitions)
+        if len(H3.rows) != 1:
+            raise AnalysisBroken('token822_addrlist: %d ends for a concrete token list' % len(H3.rows))
+        ret, cbs, tr = H3.rows[0]
+        got = sorted((sorted(c) if c is not None else None) for c in cbs if c != ())
+        if ret != 1 or got != sorted(sorted(w) for w in want):
+            bad3 = bad3 or ('%s (token kinds %s): the addresses reported are the tokens %s, result %s; documented: %s (the words and comments of a display name are not recipients)' %
+                            (what, kinds[2:], got, ret, sorted(sorted(w) for w in want)), tr)
+    r3.check(bad3 is None, 'phrase=atoms,quoted-strings,comments', 'token822.c:token822_addrlist', bad3[0] if bad3 else '%d token lists' % len(scen), bad3[1] if bad3 else None)
     r3.expect_min(1)
 
     # ---------------------------------------------------------------- 2. header -> envelope table
